@@ -28,7 +28,11 @@ VERIF = os.path.dirname(os.path.dirname(os.path.abspath(__file__)))
 REPO = os.environ.get("VERIF_REPO", "/repo")
 HARNESS_DIR = os.path.join(VERIF, "harness")
 SCRATCH_ROOT = os.environ.get("VERIF_SCRATCH", "/var/tmp")
-MEM_CAP_KB = int(float(os.environ.get("VERIF_MEM_GB", "12")) * 1024 * 1024)
+# per-process cap of a cbmc run. The largest quick-tier harness (u_demote_local_at_zeroed_c0_o0)
+# peaks at ~12 GB, so the cap leaves head room; the machine as a whole is protected by the
+# low-memory guard in MemWatch (the largest cbmc is killed when MemAvailable drops below the floor).
+MEM_CAP_KB = int(float(os.environ.get("VERIF_MEM_GB", "20")) * 1024 * 1024)
+MEM_FLOOR_KB = int(float(os.environ.get("VERIF_MEM_FLOOR_GB", "4")) * 1024 * 1024)
 # concrete-playback generation reruns one harness without formula slicing: alone, with a larger cap
 PLAYBACK_MEM_CAP_KB = int(float(os.environ.get("VERIF_PLAYBACK_MEM_GB", "40")) * 1024 * 1024)
 CORES = os.cpu_count() or 4
@@ -195,6 +199,7 @@ class MemWatch(threading.Thread):
             try:
                 out = subprocess.run(["ps", "-eo", "pid,ppid,pgid,rss,comm"], capture_output=True, text=True).stdout
                 pg = os.getpgid(me)
+                mine = []
                 for ln in out.splitlines()[1:]:
                     f = ln.split()
                     if len(f) < 5:
@@ -205,9 +210,26 @@ class MemWatch(threading.Thread):
                         if rss > self.cap_kb:
                             os.kill(pid, signal.SIGKILL)
                             self.killed.append(pid)
+                        else:
+                            mine.append((rss, pid))
+                avail = mem_available_kb()
+                if mine and avail is not None and avail < MEM_FLOOR_KB:
+                    rss, pid = max(mine)
+                    os.kill(pid, signal.SIGKILL)
+                    self.killed.append(pid)
             except Exception:
                 pass
             time.sleep(3)
+
+
+def mem_available_kb():
+    try:
+        for ln in open("/proc/meminfo"):
+            if ln.startswith("MemAvailable:"):
+                return int(ln.split()[1])
+    except Exception:
+        pass
+    return None
 
 
 def kani_env():
@@ -513,7 +535,7 @@ def main():
     finally:
         watch.stop = True
         if watch.killed:
-            problems.append(f"{len(watch.killed)} cbmc process(es) exceeded the memory cap and were killed")
+            problems.append(f"{len(watch.killed)} cbmc process(es) exceeded the memory cap (or the machine ran out of memory) and were killed")
             if status == 0:
                 status = 2
         if root and args.keep:
